@@ -143,17 +143,21 @@ PROPS["C11"] = {
 PROPS["C13"] = {
     "kani": ["c13_octree"],
     "verus": ["kdtree", "octleaf"],
-    "technique": "Verus: recursive contract on the k-d tree search (exact nearest neighbour for every well-formed tree, unbounded); Kani/CBMC full-domain harnesses on octree path/summary/leaf/error arithmetic",
-    "level_text": "Proved (Verus, every tree size, every query colour): KDTree::find's find_rec returns a node of the subtree whose squared RGB distance is <= that of every node of the subtree, for every tree satisfying the "
-                  "k-d invariant (children precede parents, left <= split <= right per dimension); dist is the squared Euclidean distance without overflow. Proved (Kani, complete): OcTreePath yields the 8 MSB-first child indices; "
+    "technique": "Verus: recursive contracts on k-d tree construction (build_rec establishes the k-d invariant over exactly the palette entries) and on the branch-and-bound search, composed through ColorPalette::{new,find} into exact nearest-colour lookup for every palette and query (unbounded); Kani/CBMC full-domain harnesses on octree path/summary/error arithmetic; Verus on leaf accumulation",
+    "level_text": "Proved (Verus, every palette length incl. duplicates and clustered values, every query colour): KDTree::new's build_rec appends |colors| nodes, leaves earlier nodes untouched, and the subtree rooted at the last node "
+                  "satisfies the k-d invariant (children precede parents; every node of the left subtree <= the split value <= every node of the right subtree in the node's dimension) and holds exactly the (index, rgb) entries of the slice; "
+                  "find_rec returns a node of the subtree whose squared RGB distance is <= that of every node of the subtree; dist is the squared Euclidean distance without overflow; "
+                  "composed: ColorPalette::new(colors) is None iff colors is empty, otherwise a palette p with p.colors == colors, and p.find(q) returns (i, c) with i < |colors|, c's rgb == colors[i]'s rgb, alpha 255, and "
+                  "d2(q, colors[i]) <= d2(q, colors[k]) for every k. Proved (Kani, complete): OcTreePath yields the 8 MSB-first child indices; "
                   "OcTreeInfo::join is a commutative monoid; ColorError::add clamps to 0..=255. Proved (Verus): leaf accumulation keeps acc <= 255*count without overflow and to_rgba is the per-channel floor of the mean, always a byte. "
-                  "That KDTree::new establishes the invariant, octree insertion/pruning/palette size, sampling and dithering order are NOT decided.",
-    "level_note": "Assumed: kd_wf(KDTree::new(colors)) (sort_by_key + recursion on sub-slices is outside Verus; CBMC drowns in std sort), OcTree::{insert,prune,build_palette}, Image::quantize loops.",
+                  "Octree insertion/pruning/palette size, sampling, losslessness and dithering order are NOT decided.",
+    "level_note": "Assumed: slice::sort_by_key sorts by the key and permutes (its std contract, N8); the iterator chain iter().map(to_rgb).enumerate().collect() yields (k, colors[k].rgb) (N8); rasterize::RGBA as an opaque stand-in (N18). Not under contract: OcTree::{insert,prune_until,build_palette}, ColorPalette::from_image, Image::quantize loops.",
     "assumptions": [
-        "the tree invariant kd_wf is an assumption about KDTree::new, not proved",
+        "slice::sort_by_key: result ordered by the key and a rearrangement of the input (external_body wrapper sort_colors_by_dim)",
+        "colors.iter().map(|c| c.to_rgb()).enumerate().collect() == [(k, colors[k].to_rgb())] (external_body wrapper enumerate_rgb)",
         "i32::pow(2) on channel differences specified as x*x; rasterize::RGBA replaced by an opaque stand-in with the contract of new/to_rgb (N18)",
         "OcTreeLeaf::to_rgba is called on leaves with color_count > 0 (precondition; leaves in the tree are created by from_rgba)",
-        "palette bounds (1..=max(requested,8)), losslessness for small colour counts, sampling rule and Floyd-Steinberg diffusion order: not under contract",
+        "palette bounds (1..=max(requested,8)), index-image validity, losslessness for small colour counts, sampling rule and Floyd-Steinberg diffusion order: not under contract",
     ],
 }
 
